@@ -326,11 +326,15 @@ func checkC09(c *hx.Ctx) {
 			if !okAll {
 				return
 			}
-			// case variant of the curve name: observed, not judged (must not panic)
-			m := cloneJWK(jwk)
-			m["crv"] = strings.ToUpper(m["crv"])
-			if st, _, ok := call(jwsCase{Kind: "verify", JWS: g.jws, JWK: m}); ok {
-				c.Count("observed_not_judged:crv-case-variant-" + st)
+		}
+		// case variants of the curve name are not among the supported names: unknown curve -> error
+		for _, variant := range []string{strings.ToUpper(jwk["crv"]), strings.ToLower(jwk["crv"]), strings.Title(strings.ToLower(jwk["crv"])), strings.Replace(jwk["crv"], "k1", "K1", 1), " " + jwk["crv"], jwk["crv"] + " "} {
+			if variant == jwk["crv"] {
+				continue
+			}
+			v := variant
+			if !bad("crv-spelling-variant", func(m map[string]string) { m["crv"] = v }) {
+				return
 			}
 		}
 		// ---- headers the statement lists: missing alg, non-boolean b64 (genuinely signed with such a header)
